@@ -287,7 +287,7 @@ func (it *TxnIterator) materializeEntry(entry *kv.Entry, cf kv.ColumnFamily, use
 		} else {
 			var vp kv.ValuePtr
 			vp.Decode(entry.Value)
-			val, cb, err := it.txn.db.vlog.read(&vp)
+			val, cb, err := it.txn.db.vlog.readOf(entry.Key, &vp)
 			if err != nil {
 				kv.RunCallback(cb)
 				return false
